@@ -463,6 +463,14 @@ partial def exec (x : XState) (args : List String) : XState × String :=
     let lab := match x.ix.label with | none => "none" | some v => toString v
     let ents := x.ix.index.map fun p => enc (some p.1) ++ "=" ++ enc (some p.2.1) ++ "@" ++ toString p.2.2
     (x, "label=" ++ lab ++ " idx=[" ++ ",".intercalate ents ++ "]")
+  | ["encodedb", n, "short"] =>
+    match findVer x.vs.versions n.toNat! with
+    | none => (x, "err")
+    | some c =>
+      let img := encodeVersionShort H n.toNat! c
+      let txt := "{" ++ " ".intercalate (img.map fun p => hexOf p.1 ++ ":" ++ hexOf p.2) ++ "}"
+      ({ x with vs := { x.vs with versions := [(n.toNat!, c)], working := c, lastSaved := c, base := n.toNat! },
+                opened := true, fastOpen := x.cfgFast, legacyLatest := none, ixValid := false }, "img=" ++ txt)
   | ["encodedb", n] =>
     -- the model writes a database image of version n with its own encoder; from here on the store
     -- holds exactly that version
